@@ -31,6 +31,32 @@ def crash_programs(rng, n, thorough, kind, ck=None):
         P.append(p)
     for nanno in [0, 3, 11, 40, 230] + ([rng.randint(1, 300) for _ in range(40)] if thorough else []):
         P.append(nofsr_program(rng, len(P) + 1, kind, thorough, nanno))
+    # deep index pyramids on disk: the smallest geometry, two interleaved signals, enough samples for a level-2 (thorough:
+    # level-3) index; an image after every complete backend write.  Repair has to resume the writer over several levels
+    # here (jls_core_repair_fsr: replay, skip the chunk the level above already lists, descend).
+    for k, total in enumerate([4200] + ([17000] if thorough else [])):
+        lit = progs.lit
+        ops = [{"op": "wopen", "twr": False}, {"op": "source", "id": 1, "name": lit("s"), "vendor": None, "model": None, "version": None, "serial": None}]
+        for g, dt in ((1, "f32"), (2, "i16")):
+            ops.append({"op": "signal", "id": g, "src": 1, "dt": dt, "rate": 1000, "spd": 32, "sdf": 16, "eps": 10, "sumdf": 10, "adf": 10, "udf": 10,
+                        "name": lit("p%d" % g), "units": lit("u"), "base": 0, "tbase": 0})
+        n1 = n2 = 0
+        while n1 < total:
+            m = rng.choice([100, 37, 64, 250])
+            ops.append({"op": "fsr", "sig": 1, "id": n1, "n": m})
+            n1 += m
+            if n2 < total * 6 // 10:
+                m2 = rng.choice([100, 64, 200])
+                ops.append({"op": "fsr", "sig": 2, "id": n2, "n": m2})
+                n2 += m2
+        ops.append({"op": "wclose"})
+        rd = [{"op": "ropen"}, {"op": "len", "sig": 1}, {"op": "len", "sig": 2}, {"op": "rd", "sig": 1, "start": 0, "n": n1},
+              {"op": "rd", "sig": 2, "start": 0, "n": n2}, {"op": "unchanged"}, {"op": "rclose"}]
+        nspd, nsdf, neps, nsum = progs.normalise("f32", 32, 16, 10, 10)
+        P.append({"x": len(P) + 1, "kind": kind, "feat": ["deep-pyramid", "type-f32", "type-i16"], "ops": ops + rd,
+                  "model": {"sigs": {"1": {"dt": "f32", "bits": 32, "norm": [nspd, nsdf, neps, nsum], "length": n1, "first": 0, "defined": True},
+                                     "2": {"dt": "i16", "bits": 16, "norm": list(progs.normalise("i16", 32, 16, 10, 10)), "length": n2, "first": 0, "defined": True}}},
+                  "crash": {"bytes": "none", "stride": 1, "all_max": 40, "budget": 6000}})
     # definitions directly followed by chunks of several KiB: a torn big chunk leaves a long tail behind a definition
     # that the open has already taken in before it looks for the last complete chunk
     for k in range(3 if thorough else 1):
